@@ -337,3 +337,68 @@ func (m *PrevMatcher) Longest(pos int) (best, src int) {
 	}
 	return best, src
 }
+
+// OptimalCostIndexed is OptimalCost for large windows on data with few
+// repeats: the sources of a position are found through an index of the
+// minM-byte strings (minM <= 8) instead of scanning the whole window. The
+// result is the same minimum over the same set of parses.
+func OptimalCostIndexed(data []byte, lo, start, end, minM, maxM, window int,
+	cost func(m, o uint32) uint64, litCost uint64) uint64 {
+	if minM < 1 || minM > 8 {
+		return OptimalCost(data, lo, start, end, minM, maxM, window, cost, litCost)
+	}
+	key := func(p int) uint64 {
+		var k uint64
+		for i := 0; i < minM; i++ {
+			k = k<<8 | uint64(data[p+i])
+		}
+		return k
+	}
+	from := start - window
+	if from < lo {
+		from = lo
+	}
+	idx := map[uint64][]int32{}
+	for p := from; p+minM <= end; p++ {
+		k := key(p)
+		idx[k] = append(idx[k], int32(p))
+	}
+	n := end - start
+	const inf = ^uint64(0)
+	d := make([]uint64, n+1)
+	for i := 1; i <= n; i++ {
+		d[i] = inf
+	}
+	for i := 0; i < n; i++ {
+		if d[i] == inf {
+			continue
+		}
+		if c := d[i] + litCost; c < d[i+1] {
+			d[i+1] = c
+		}
+		pos := start + i
+		if pos+minM > end {
+			continue
+		}
+		for _, s := range idx[key(pos)] {
+			src := int(s)
+			if src >= pos {
+				break
+			}
+			if pos-src > window {
+				continue
+			}
+			l := 0
+			for pos+l < end && l < maxM && data[src+l] == data[pos+l] {
+				l++
+			}
+			o := uint32(pos - src)
+			for m := minM; m <= l; m++ {
+				if c := d[i] + cost(uint32(m), o); c < d[i+m] {
+					d[i+m] = c
+				}
+			}
+		}
+	}
+	return d[n]
+}
